@@ -28,16 +28,19 @@ def classify(f):
         first = _txt(ev.get("first") or [])
         what = kinds[0]
         if what == "comment":
-            what = "comment-" + ("line" if first.startswith("//") else "block")
             intree = (ev.get("intree") or [True])[0]
-            what += "/%s/%s" % ("printed-differently" if intree else "not-in-the-tree", "Inline" if o.get("opt", 0) & 2 else "module")
+            what = "comment-%s/%s/%s" % ("printed-differently" if intree else "not-in-the-tree", "Inline" if o.get("opt", 0) & 2 else "module",
+                                         "line" if first.startswith("//") else "block")
         return "printer/literal-altered/%s" % what, ev, "missing from the printed text: %s" % json.dumps(first)
     if name == "Parse2":
         et = ev.get("etext", "")
         et = re.sub(r"\s+", "-", re.sub(r"[^A-Za-z ]+", " ", et).strip())[:60]
         return "printer/reparse-fails/%s" % (et or "error"), ev, ev.get("etext", "")
     if name == "Trees":
-        return "printer/tree-differs/%s" % ev.get("construct", "?"), ev, "at %s: %s" % (ev.get("path"), ev.get("what"))
+        w = str(ev.get("what", ""))
+        # a change of node type, operator, flag or length is part of the signature; changed text is not
+        detail = "/" + w if w and '"' not in w and len(w) < 40 and not w.startswith(("data", "name")) else ""
+        return "printer/tree-differs/%s%s" % (ev.get("construct", "?"), detail.replace(" ", "")), ev, "at %s: %s" % (ev.get("path"), w)
     if name == "Print2":
         # name the construct by the characters around the first differing byte
         n1, n2 = _txt(ev.get("near1") or []), _txt(ev.get("near2") or [])
